@@ -110,6 +110,8 @@ fn field_acc(e: &Expr) -> String {
             if let Some(p) = rest.find('(') { let m = &rest[..p]; if rest[p..].starts_with("(self.clone(),slice.") { return format!(".nested .{}", camel(m)); } }
         }
     }
+    if s.starts_with("slice.") && s.ends_with(".get(self.clone())?") { return ".leafGet".into(); }
+    if s.starts_with("slice.") && s.ends_with(".get_mut(self.clone())?") { return ".leafGetMut".into(); }
     if s.starts_with("slice.") && s.ends_with(".get_unchecked(self.clone())") { return ".leafUnchecked".into(); }
     if s.starts_with("slice.") && s.ends_with(".get_unchecked_mut(self.clone())") { return ".leafUncheckedMut".into(); }
     if s.starts_with("&slice.") && s.ends_with("[self.clone()]") { return ".leafIndex".into(); }
@@ -337,6 +339,50 @@ fn generic_layer(out: &mut String) {
     writeln!(out, "end Soa.Extracted").unwrap();
 }
 
+// ---------- unsafe sites: every `unsafe` block inside a SAFE generated function ----------
+struct UnsafeFinder { found: usize }
+impl<'ast> syn::visit::Visit<'ast> for UnsafeFinder {
+    fn visit_expr_unsafe(&mut self, e: &'ast syn::ExprUnsafe) { self.found += 1; syn::visit::visit_expr_unsafe(self, e); }
+}
+fn unsafe_sites(out: &mut String) {
+    use std::fmt::Write;
+    use syn::visit::Visit;
+    let mut sites: Vec<String> = vec![];
+    let mut nfn = 0usize; let mut nunsafe_fn = 0usize;
+    for clone in [false, true] {
+        let src = if clone { "#[soa_derive(Clone)] pub struct P { pub a: A, #[nested_soa] pub n: N, pub c: C }" } else { "pub struct P { pub a: A, #[nested_soa] pub n: N, pub c: C }" };
+        let ast: syn::DeriveInput = syn::parse_str(src).expect("parse");
+        let input = input::Input::new(ast);
+        for tstream in [vec::derive(&input), refs::derive(&input), ptr::derive(&input), slice::derive(&input), slice::derive_mut(&input),
+                        index::derive(&input), iter::derive(&input), generic::derive_slice(&input), generic::derive_slice_mut(&input), generic::derive_vec(&input)] {
+            let file: syn::File = syn::parse2(tstream).expect("generated code parses");
+            for item in &file.items {
+                if let Item::Impl(im) = item {
+                    let owner = ts(&im.self_ty);
+                    let tr = im.trait_.as_ref().map(|(_, p, _)| format!("<{}>", p.segments.last().unwrap().ident)).unwrap_or_default();
+                    for ii in &im.items {
+                        if let ImplItem::Fn(f) = ii {
+                            if !clone { nfn += 1; }
+                            if f.sig.unsafety.is_some() { if !clone { nunsafe_fn += 1; } continue; }
+                            let mut v = UnsafeFinder { found: 0 };
+                            v.visit_block(&f.block);
+                            if v.found > 0 {
+                                let s = format!("{}{}::{}", owner, tr, f.sig.ident);
+                                if !sites.contains(&s) { sites.push(s); }
+                            }
+                        }
+                    }
+                }
+            }
+        }
+    }
+    writeln!(out, "-- generated by /verif/extract from the generator sources in /repo/soa-derive-internal/src; do not edit").unwrap();
+    writeln!(out, "namespace Soa.Extracted\n").unwrap();
+    writeln!(out, "/-- every SAFE generated function (schematic struct with a nested field, with and without the Clone API)\n    whose body contains an `unsafe` block: the only places where the safe API can do something unsafe -/").unwrap();
+    writeln!(out, "def unsafeSites : List String := [{}]\n", sites.iter().map(|s| lean_str(s)).collect::<Vec<_>>().join(", ")).unwrap();
+    writeln!(out, "def nGeneratedFns : Nat := {}\ndef nUnsafeFns : Nat := {}\n\nend Soa.Extracted", nfn, nunsafe_fn).unwrap();
+}
+
 /// write only when the content changed, so that `lake build` re-checks nothing on an unchanged tree
 fn write_if_changed(path: &str, content: &str) {
     if std::fs::read_to_string(path).map(|old| old == content).unwrap_or(false) { return; }
@@ -353,4 +399,7 @@ fn main() {
     let mut g = String::new();
     generic_layer(&mut g);
     write_if_changed(&format!("{}/Generic.lean", outdir), &g);
+    let mut u = String::new();
+    unsafe_sites(&mut u);
+    write_if_changed(&format!("{}/Unsafe.lean", outdir), &u);
 }
